@@ -202,7 +202,7 @@ class DeferralModel(object):
             self.pending[gcode] = ("text", cmd)
         elif mode == "merge":
             old = self.pending.pop(gcode, None)
-            args = OrderedDict() if old is None else old[1]
+            args = old[1] if (old is not None and old[0] == "merge") else OrderedDict()
             for k, v in simple_params(cmd).items():
                 args[k] = v
             self.pending[gcode] = ("merge", args)
